@@ -20,6 +20,7 @@ import (
 	"pgregory.net/rapid"
 
 	"github.com/TheManticoreProject/Manticore/network/smb/smb_v10/dialects"
+	"github.com/TheManticoreProject/Manticore/network/smb/smb_v10/message"
 	"github.com/TheManticoreProject/Manticore/network/smb/smb_v10/message/commands/andx"
 	"github.com/TheManticoreProject/Manticore/network/smb/smb_v10/message/commands/codes"
 	"github.com/TheManticoreProject/Manticore/network/smb/smb_v10/message/data"
@@ -670,6 +671,33 @@ func checkHeaderLE(c hdrCase) []vf.Finding {
 	got, err := h.Marshal()
 	if err != nil || !bytes.Equal(got, want) {
 		return []vf.Finding{vf.F("Header.Marshal", "header-differs-from-ms-cifs-2.2.3.1", "got %x want %x (err %v)", got, want, err)}
+	}
+	// The same header at the head of a message: the header is assigned after the command was added (a reply whose
+	// command code the caller sets itself - the final response to SMB_COM_WRITE_RAW goes out as
+	// SMB_COM_WRITE_COMPLETE - or a header taken over from a request), so its Command is the caller's value and in
+	// general not the code of the structure that follows. The first 32 bytes of the message are the encoding of
+	// these field values, and encoding leaves them as they were.
+	names := smbgen.Names()
+	e, _ := smbgen.ByName(names[int(b[19])%len(names)])
+	m := message.NewMessage()
+	m.AddCommand(smbgen.NewValid(e))
+	m.Header = h
+	enc, err := func() (b []byte, err error) {
+		defer func() {
+			if r := recover(); r != nil {
+				err = fmt.Errorf("panic: %v", r)
+			}
+		}()
+		return m.Marshal()
+	}()
+	if err != nil {
+		return nil // a structure that does not encode in its factory-fresh form: C04's subject
+	}
+	if len(enc) < 32 || !bytes.Equal(enc[:32], want) {
+		return []vf.Finding{vf.F("Message.Marshal", "message-header-differs-from-header-fields", "%s under a header with command %#x: message starts %x, the header's fields encode as %x", e.Name, b[0], enc[:min(len(enc), 32)], want)}
+	}
+	if again, err := h.Marshal(); err != nil || !bytes.Equal(again, want) {
+		return []vf.Finding{vf.F("Message.Marshal", "header-fields-changed-by-encoding", "%s under a header with command %#x: after Message.Marshal the header encodes as %x, before as %x (err %v)", e.Name, b[0], again, want, err)}
 	}
 	return nil
 }
